@@ -37,6 +37,10 @@ func randomEnv(rn *Runner, d *Doc) *Env {
 	if r.Chance(1, 3) {
 		env.NS = append(env.NS, NSBind{"", pick(r, uris)})
 	}
+	// a prefix BOUND to the empty URI: none:x is the x in no namespace (bound is not the same as non-empty)
+	if r.Chance(2, 3) {
+		env.NS = append(env.NS, NSBind{"none", ""})
+	}
 	mkVal := func() VarVal {
 		switch r.Intn(4) {
 		case 0:
@@ -228,7 +232,7 @@ func famC11(rn *Runner) {
 		for k := 0; k < rn.Scale(4, 8) && !rn.TooMany(); k++ {
 			env := randomEnv(rn, d)
 			g := NewExprGen(rn.R.Fork(), d, env)
-			g.Prefixes = []string{"p", "q", "r", "p2", "w", "zz", "child", "self", "text", "descendant"}
+			g.Prefixes = []string{"p", "q", "r", "p2", "w", "zz", "child", "self", "text", "descendant", "none", "none"} // none is BOUND, to the empty URI
 			for i := 0; i < rn.Scale(150, 400) && !rn.TooMany(); i++ {
 				var e Expr
 				switch rn.R.Intn(5) {
